@@ -377,6 +377,8 @@ def slice_of(v):
 class Models:
     def __init__(self):
         self.table = {}
+        self._keys = {}
+        self._lookups = {}
         self.exact = {}
         self.override = set()
         register_all(self)
@@ -391,8 +393,14 @@ class Models:
         return deco
 
     def key_of(self, callee):
+        k = self._keys.get(callee)
+        if k is None:
+            k = self._keys[callee] = self._key_of(callee)
+        return k
+
+    def _key_of(self, callee):
         s = callee.strip()
-        if s.startswith("<") and not s.startswith("<impl"):
+        if s.startswith("<") and (not s.startswith("<impl") or split_as(s[1:find_matching(s, 0)])[1] is not None):
             j = find_matching(s, 0)
             inner = s[1:j]
             rest = s[j + 1:]
@@ -408,6 +416,12 @@ class Models:
         return "::".join(segs)
 
     def lookup(self, key, callee):
+        if key in self._lookups:
+            return self._lookups[key]
+        r = self._lookups[key] = self._lookup(key, callee)
+        return r
+
+    def _lookup(self, key, callee):
         if key in self.table:
             return self.table[key]
         segs = key.split("::")
@@ -444,13 +458,19 @@ def register_all(M):
             return Slice(t.items)
         if isinstance(t, Agg) and t.kind == "adt:Cow":
             return Str(elems_of(t.fields[0]))
-        if isinstance(t, Opaque) and t.tag == "PathBuf":
+        if isinstance(t, Opaque) and t.tag in ("PathBuf", "bytes"):
             return t
         if isinstance(t, Agg) and t.kind == "adt:RefMut":
             return t.fields[0]
         if isinstance(t, Box):
             return Ref(t.cell, 0)
         raise Unsupported("deref model on %r (%s)" % (t, callee))
+
+    @reg("Fn::call", "FnMut::call_mut", "FnOnce::call_once")
+    def m_fn_call(it, args, callee):
+        tup = args[1]
+        a = list(tup.fields) if isinstance(tup, Agg) else []
+        return it.call_value(args[0], a)
 
     # ----------------------------------------------------------------- String
     @reg("String::new", "String::default")
@@ -590,6 +610,20 @@ def register_all(M):
             raise Unsupported("str::contains with a non-char pattern")
         hay = elems_of(args[0])
         c = args[1]
+        if is_sym(c) and all(not is_sym(h) for h in hay):
+            # concrete haystack: membership as a few range tests
+            vs = sorted(set(hay))
+            terms = []
+            i = 0
+            while i < len(vs):
+                j = i
+                while j + 1 < len(vs) and vs[j + 1] == vs[j] + 1:
+                    j += 1
+                terms.append(c == vs[i] if i == j else z3.And(z3.UGE(c, vs[i]), z3.ULE(c, vs[j])))
+                i = j + 1
+            if not terms:
+                return False
+            return simp(z3.Or(terms)) if len(terms) > 1 else simp(terms[0])
         conds = []
         for h in hay:
             e = char_eq(h, c)
@@ -789,6 +823,21 @@ def register_all(M):
         if t == "bool":
             return False
         raise Unsupported("unwrap_or_default for %s" % t)
+
+    @reg("Try::branch")
+    def m_try_branch(it, args, callee):
+        o = option_of(args[0])
+        good = (o.variant == 1) if o.kind == "adt:Option" else (o.variant == 0)
+        if good:
+            return Agg("adt:ControlFlow", 0, [o.fields[0]])
+        return Agg("adt:ControlFlow", 1, [o if o.kind == "adt:Result" else none()])
+
+    @reg("FromResidual::from_residual")
+    def m_from_residual(it, args, callee):
+        r = args[0]
+        if isinstance(r, Agg) and r.kind == "adt:Result":
+            return r
+        return none()
 
     @reg("Option::is_some")
     def m_is_some(it, args, callee):
@@ -1230,6 +1279,154 @@ def register_all(M):
             return some(old)
         m.entries.append([tuple(key), args[2]])
         return none()
+
+    @reg("HashMap::clear")
+    def m_map_clear(it, args, callee):
+        m = deref(args[0])
+        del m.entries[:]
+        m.oracle = None
+        return UNIT
+
+    @reg("HashMap::remove")
+    def m_map_remove(it, args, callee):
+        m = deref(args[0])
+        i = map_find(it, m, elems_of(args[1]))
+        if i is None:
+            return none()
+        return some(m.entries.pop(i)[1])
+
+    @reg("HashMap::len")
+    def m_map_len(it, args, callee):
+        m = deref(args[0])
+        if m.oracle is not None:
+            raise Unsupported("len of an oracle-backed map")
+        return len(m.entries)
+
+    @reg("HashMap::is_empty")
+    def m_map_is_empty(it, args, callee):
+        return m_map_len(it, args, callee) == 0
+
+    # ----------------------------------------------------------------- more Vec / String / Option helpers
+    @reg("Vec::pop")
+    def m_vec_pop(it, args, callee):
+        v = deref(args[0])
+        return some(v.items.pop()) if v.items else none()
+
+    @reg("Vec::insert")
+    def m_vec_insert(it, args, callee):
+        v = deref(args[0])
+        i = as_int(it, args[1], 0, 64, "insert index")
+        if i > len(v.items):
+            raise PanicPath("insertion index out of bounds")
+        v.items.insert(i, args[2])
+        return UNIT
+
+    @reg("Vec::remove")
+    def m_vec_remove(it, args, callee):
+        v = deref(args[0])
+        i = as_int(it, args[1], 0, 64, "remove index")
+        if i >= len(v.items):
+            raise PanicPath("removal index out of bounds")
+        return v.items.pop(i)
+
+    @reg("slice::first", "Vec::first")
+    def m_first(it, args, callee):
+        s2 = slice_of(args[0])
+        return some(Ref(s2.items, s2.lo)) if len(s2) else none()
+
+    @reg("slice::last", "Vec::last")
+    def m_slice_last(it, args, callee):
+        s2 = slice_of(args[0])
+        return some(Ref(s2.items, s2.hi - 1)) if len(s2) else none()
+
+    @reg("slice::get", "Vec::get")
+    def m_slice_get(it, args, callee):
+        s2 = slice_of(args[0])
+        i = args[1]
+        if is_sym(i):
+            i = it.st.concretize_int(i, 0, max(len(s2), 1) + 1, "slice::get index")
+        return some(Ref(s2.items, s2.lo + i)) if i < len(s2) else none()
+
+    @reg("str::starts_with", "str::ends_with")
+    def m_starts_with(it, args, callee):
+        el = elems_of(args[0])
+        pat = args[1]
+        if isinstance(pat, (Str, SString)) or isinstance(deref(pat), (Str, SString)):
+            p = elems_of(pat)
+            if len(p) > len(el):
+                return False
+            part = el[:len(p)] if "starts_with" in callee else el[len(el) - len(p):]
+            return str_eq(part, p)
+        if not el:
+            return False
+        return char_eq(el[0] if "starts_with" in callee else el[-1], pat)
+
+    @reg("Option::unwrap_or")
+    def m_unwrap_or(it, args, callee):
+        o = option_of(args[0])
+        return o.fields[0] if o.variant == 1 else args[1]
+
+    @reg("Option::as_ref", "Option::as_mut")
+    def m_opt_as_ref(it, args, callee):
+        o = option_of(args[0])
+        return some(Ref(o.fields, 0)) if o.variant == 1 else none()
+
+    @reg("Option::take")
+    def m_opt_take(it, args, callee):
+        r = args[0]
+        o = option_of(r)
+        r.set(none())
+        return o
+
+    @reg("Option::map_or")
+    def m_opt_map_or(it, args, callee):
+        o = option_of(args[0])
+        return it.call_value(args[2], [o.fields[0]]) if o.variant == 1 else args[1]
+
+    @reg("Option::is_some_and")
+    def m_opt_is_some_and(it, args, callee):
+        o = option_of(args[0])
+        return it.call_value(args[1], [o.fields[0]]) if o.variant == 1 else False
+
+    @reg("Option::ok_or")
+    def m_opt_ok_or(it, args, callee):
+        o = option_of(args[0])
+        return ok(o.fields[0]) if o.variant == 1 else err(args[1])
+
+    @reg("Result::is_ok")
+    def m_res_is_ok(it, args, callee):
+        return option_of(args[0]).variant == 0
+
+    @reg("Result::is_err")
+    def m_res_is_err(it, args, callee):
+        return option_of(args[0]).variant == 1
+
+    @reg("Result::unwrap_or_default", "Result::unwrap_or")
+    def m_res_unwrap_or(it, args, callee):
+        o = option_of(args[0])
+        if o.variant == 0:
+            return o.fields[0]
+        if callee.strip().endswith("unwrap_or"):
+            return args[1]
+        raise Unsupported("Result::unwrap_or_default")
+
+    @reg("Result::and_then")
+    def m_res_and_then(it, args, callee):
+        o = option_of(args[0])
+        return it.call_value(args[1], [o.fields[0]]) if o.variant == 0 else o
+
+    @reg("char::is_ascii", "char::is_ascii_alphabetic", "char::is_ascii_digit", "char::is_ascii_alphanumeric", "char::is_ascii_punctuation",
+         "char::is_alphanumeric", "char::is_ascii_lowercase", "char::is_ascii_uppercase")
+    def m_char_class(it, args, callee):
+        c = deref(args[0])
+        name = callee.strip().split("::")[-1]
+        if name == "is_alphanumeric":
+            raise Unsupported("char::is_alphanumeric (Unicode tables)")
+        sets = {"is_ascii": list(range(0, 0x80)), "is_ascii_alphabetic": [x for x in range(0x80) if chr(x).isalpha()],
+                "is_ascii_digit": list(range(0x30, 0x3a)), "is_ascii_alphanumeric": [x for x in range(0x80) if chr(x).isalnum()],
+                "is_ascii_lowercase": list(range(0x61, 0x7b)), "is_ascii_uppercase": list(range(0x41, 0x5b)),
+                "is_ascii_punctuation": [x for x in range(0x21, 0x7f) if not chr(x).isalnum()]}[name]
+        return m_str_contains(it, [Str(sets), c], "str::contains::<char>")
 
     # ----------------------------------------------------------------- pointers / boxes / cells
     @reg("Box::new")
